@@ -23,5 +23,14 @@ PROPS["C02"] = {
     "outside": "",
 }
 
+PROPS["C01"] = {
+    "programs": {
+        "quick": [P("test", "VerifFileRoundTrip", w=2, k=1, maxn=5)],
+    },
+    "bounds": {"quick": "w=2, size-1 chunker, 0..5 chunks"},
+    "assumptions": [],
+    "outside": "",
+}
+
 NOT_APPLICABLE = {}
 NOTES = "All checks are bounded: every result reads 'holds for all values within the bounds recorded in the evidence file; nothing is claimed outside them'. exit 2 = inconclusive (never a pass)."
